@@ -464,3 +464,138 @@ Proof.
         split_step Hs; finish_step Hs; cbn in *; split; try assumption; try reflexivity;
         try (intros [X|X]; [discriminate X|exact (J0 X)]); congruence.
 Qed.
+
+(** * Notification bracketing (handler installed throughout) *)
+Definition no_seth (cl : call) : bool := match cl with CSetHandler _ => false | _ => true end.
+
+Definition br_rel (w : option wpc) (b : bst) : Prop :=
+  match w with
+  | None | Some WEnter | Some (WN MStart _) => b = BIdle \/ b = BResult
+  | Some WNext | Some (WBody _ _) | Some (WN MResult _) => b = BStarted \/ b = BResult
+  | Some WHasP | Some WRet | Some WFin => b = BResult
+  | Some WThrow => False
+  end.
+
+Record br_inv (s : state) : Prop := {
+  br_h : handler s = true;
+  br_sc : forallb no_seth (script s) = true;
+  br_r : br_rel (wpcs s) (bracket_of_log (log s))
+}.
+
+Lemma bracket_notify : forall m l, bracket_of_log (ENotify m :: l) = bracket_step (bracket_of_log l) m.
+Proof.
+  intros m l. unfold bracket_of_log, bracket_run. cbn. rewrite fold_left_app. reflexivity.
+Qed.
+
+Lemma br_init : forall sc, forallb no_seth sc = true -> br_inv (init true sc).
+Proof. intros sc H. constructor; cbn; auto. Qed.
+
+Lemma br_step : forall c s t s', ctl c s -> br_inv s -> step c s t = Some s' -> br_inv s'.
+Proof.
+  intros c s t s' HC [Hh Hsc Hr] H.
+  destruct t; step_unfold H.
+  - split_step H; finish_step H; try (destruct rs); try (rewrite E0 in Hsc; cbn in Hsc);
+      try discriminate Hsc; constructor; cbn in *; try assumption.
+    all: try (rewrite (ctl_sw c s HC) in Hr by (rewrite E; reflexivity); exact Hr).
+  - destruct (wpcs s) as [p|] eqn:Ew; [|discriminate].
+    destruct p as [|m [| |]| | | | | |]; unfold free_for, release_w in H; rewrite ?Hh in H;
+      split_step H; finish_step H; constructor; cbn -[bracket_of_log] in *;
+      try assumption; try contradiction;
+      rewrite ?bracket_notify;
+      try (destruct Hr as [-> | ->]; cbn; auto);
+      try (rewrite Hr; cbn; auto).
+    right. exact Hr.
+Qed.
+
+(** [notif_bracketed]: with a handler installed throughout, the "deploy" notifications it
+    receives always form a prefix of (start (success|failure)+)*, and whenever no worker
+    exists the sequence is complete: every start has been followed by a result and
+    nothing comes after the last result. *)
+Lemma notif_bracketed_holds : forall c sc s, forallb no_seth sc = true -> reach c true sc s ->
+  bracket_of_log (log s) <> BErr /\
+  (wpcs s = None -> bracket_of_log (log s) = BIdle \/ bracket_of_log (log s) = BResult).
+Proof.
+  intros c sc s Hsc H.
+  assert (X : ctl c s /\ br_inv s).
+  { eapply reach_invariant with (P := fun s => ctl c s /\ br_inv s); eauto.
+    - split; [apply ctl_init|apply br_init; exact Hsc].
+    - intros s0 t s1 [A B] Hs. split; [eapply ctl_step|eapply br_step]; eauto. }
+  destruct X as [_ [_ _ Hr]]. split.
+  - intros E. rewrite E in Hr. destruct (wpcs s) as [[|[] []| | | | | |]|]; cbn in Hr;
+      try contradiction; try discriminate; destruct Hr; discriminate.
+  - intros E. rewrite E in Hr. exact Hr.
+Qed.
+
+(** * Race freedom (lockset): in no reachable state do the worker's and the client's
+    next accesses (rows of the generated table) conflict *)
+Local Open Scope string_scope.
+Definition worker_fn (f : string) : bool :=
+  existsb (String.eqb f) ["Deployer::Run"; "Deployer::NextTask"; "Deployer::HasPendingTasks"; "Service::Notify"].
+
+Definition row_ok (r : acc_row) : bool :=
+  negb (is_data r) ||
+  (if String.eqb (a_var r) VQUEUE then
+     has_lock DMUTEX r || (String.eqb (a_fn r) "Deployer::StartWork" && akind_eqb (a_kind r) ARead)
+   else if String.eqb (a_var r) VHANDLER then has_lock SMUTEX r
+   else if String.eqb (a_var r) VSINK then worker_fn (a_fn r)
+   else negb (worker_fn (a_fn r))).
+
+(** the condition on the generated table under which race freedom is proved *)
+Definition table_ok (tbl : list acc_row) : bool := forallb row_ok tbl.
+
+Lemma rows_in : forall tbl f r, In r (rows tbl f) -> In r tbl /\ a_fn r = f.
+Proof. intros tbl f r H. unfold rows in H. apply filter_In in H. destruct H as [A B]. apply String.eqb_eq in B. auto. Qed.
+
+Lemma w_acc_fn : forall tbl s a, In a (w_acc tbl s) ->
+  In a tbl /\ worker_fn (a_fn a) = true /\ wpcs s <> None.
+Proof.
+  intros tbl s a H. unfold w_acc in H. destruct (wpcs s) as [p|]; [|contradiction].
+  destruct p; apply rows_in in H; destruct H as [A B]; rewrite B; repeat split; auto; discriminate.
+Qed.
+
+Lemma c_acc_fn : forall tbl s b, In b (c_acc tbl s) ->
+  In b tbl /\ worker_fn (a_fn b) = false /\
+  (a_fn b = "Deployer::StartWork" -> in_startwork (cpcs s) = true).
+Proof.
+  intros tbl s b H. unfold c_acc, call_acc, disabled_rows in H.
+  destruct (cpcs s); [destruct (script s) as [|[]]; [contradiction|..]; try (destruct b0)|..];
+    try contradiction; rewrite ?in_app_iff in H;
+    repeat (destruct H as [H|H]); apply rows_in in H; destruct H as [A B]; rewrite B;
+    repeat split; auto; try discriminate.
+Qed.
+
+Lemma share_lock_common : forall m a b, has_lock m a = true -> has_lock m b = true -> share_lock a b = true.
+Proof.
+  intros m a b Ha Hb. unfold share_lock. apply existsb_exists. unfold has_lock in Ha.
+  apply existsb_exists in Ha. destruct Ha as [x [Hx Hm]]. apply String.eqb_eq in Hm. subst x.
+  exists m. auto.
+Qed.
+
+Lemma race_free_holds : forall tbl c h0 sc s,
+  table_ok tbl = true -> reach c h0 sc s -> race_state tbl s = false.
+Proof.
+  intros tbl c h0 sc s Hok Hr. pose proof (reach_ctl _ _ _ _ Hr) as HC.
+  destruct (race_state tbl s) eqn:R; [exfalso|reflexivity].
+  unfold race_state in R. apply existsb_exists in R. destruct R as [a [Ha R]].
+  apply existsb_exists in R. destruct R as [b [Hb R]].
+  destruct (w_acc_fn _ _ _ Ha) as (Ia & Wa & Hw).
+  destruct (c_acc_fn _ _ _ Hb) as (Ib & Wb & Hsw).
+  unfold table_ok in Hok. rewrite forallb_forall in Hok.
+  pose proof (Hok _ Ia) as Oa. pose proof (Hok _ Ib) as Ob.
+  unfold conflict in R. rewrite !andb_true_iff in R. destruct R as ((((Da & Db) & Ev) & _) & Ns).
+  apply String.eqb_eq in Ev. unfold row_ok in Oa, Ob. rewrite Da in Oa. rewrite Db in Ob. cbn in Oa, Ob.
+  rewrite <- Ev in Ob.
+  destruct (String.eqb (a_var a) VQUEUE).
+  - rewrite orb_true_iff in Oa, Ob. destruct Oa as [Oa|Oa].
+    + destruct Ob as [Ob|Ob].
+      * rewrite (share_lock_common _ _ _ Oa Ob) in Ns. discriminate.
+      * rewrite andb_true_iff in Ob. destruct Ob as [Ob _]. apply String.eqb_eq in Ob.
+        apply Hw. apply (ctl_sw c s HC). apply Hsw. exact Ob.
+    + rewrite andb_true_iff in Oa. destruct Oa as [Oa _]. apply String.eqb_eq in Oa.
+      rewrite Oa in Wa. discriminate.
+  - destruct (String.eqb (a_var a) VHANDLER).
+    + rewrite (share_lock_common _ _ _ Oa Ob) in Ns. discriminate.
+    + destruct (String.eqb (a_var a) VSINK).
+      * change (worker_fn (a_fn b) = true) in Ob. rewrite Wb in Ob. discriminate.
+      * change (negb (worker_fn (a_fn a)) = true) in Oa. rewrite Wa in Oa. discriminate.
+Qed.
